@@ -299,8 +299,11 @@ def check_case(ms, fi, plan, pair):
             rm = run_case(model, fi, plan, ch, False)
             if rm["log"][:k + 1] != rs["log"][:k + 1]:
                 od = True       # evaluation order differs before the fault: C20's business, not compared
-            elif json.loads(json.dumps(rm["outcome"])) != json.loads(json.dumps(rs["outcome"])):
-                v = {"klass": "result-differs-from-cpython-under-fault", "detail": {"model": rm["outcome"], "sut": rs["outcome"]}}
+            else:
+                # only the fate of the injected exception is this property's business: does Inj(k) escape, and which one
+                inj = lambda o: list(o[1:]) if (o[0] == "raise" and o[1] == "Inj") else None
+                if inj(json.loads(json.dumps(rm["outcome"]))) != inj(json.loads(json.dumps(rs["outcome"]))):
+                    v = {"klass": "injected-exception-fate-differs-from-cpython", "detail": {"model": rm["outcome"], "sut": rs["outcome"]}}
     return rs["ncalls"], v, od
 
 
